@@ -507,6 +507,98 @@ theorem pairwise_counterexample : ¬ ilp_complete_full pairInst := by
   rw [ho, pairPlan_goodput] at this
   omega
 
+/-! ### Completeness fails (finding C14-ILP-3): a join with a parent outside the call -/
+
+theorem isum_map_le_length {α : Type} (l : List α) (f : α → Int) (h : ∀ a ∈ l, f a ≤ 1) :
+    isum (l.map f) ≤ (l.length : Nat) := by
+  induction l with
+  | nil => simp
+  | cons x xs ih =>
+    have h1 := h x (by simp)
+    have h2 := ih (fun a ha => h a (by simp [ha]))
+    simp; omega
+
+/-- If some graph parent of `c` has no variables in this invocation, no feasible point places
+`c`: `all_parents_placed = 1` needs `Σ placed parents with variables = number of ALL parents`. -/
+theorem never_placed_of_missing_parent {I : Inst} {σ : Var → Int} (h : sat σ (gen I))
+    (hwr : I.wfRunning = true) {c : Nat} (hc : c < I.nT) (hr : I.running c = false)
+    (hne : (I.parentVars c).isEmpty = false) (hmiss : (I.parentVars c).length < I.nParents c) :
+    psum I σ c = 0 := by
+  have hnn := psum_nonneg h hc
+  by_cases hp : psum I σ c = 0
+  · exact hp
+  · exfalso
+    have hm := mem_nonRunning.mpr ⟨hc, hr⟩
+    have hF : Constr.ind s!"{I.tname c}_placement_False" (.allParents c) 0 (I.sumX c) .eq 0 ∈ I.constrs :=
+      mem_constrs_deps hm (by simp [Inst.cDeps, hne])
+    have hF' := sat_constr h hF
+    simp only [Constr.holds, Sense.holds, eval_sumX] at hF'
+    have hone : σ (.allParents c) = 1 := by
+      rcases C11_Ilp.allParents_binary h hc hr hne with h0 | h1
+      · exact absurd (hF' h0) hp
+      · exact h1
+    have hT : Constr.ind s!"{I.tname c}_parents_placed_True" (.allParents c) 1 (I.parentExpr c) .eq
+        (I.nParents c : Int) ∈ I.constrs :=
+      mem_constrs_deps hm (by simp [Inst.cDeps, hne])
+    have hT' := sat_constr h hT hone
+    simp only [Sense.holds, C11_Ilp.eval_parentExpr] at hT'
+    have hub : isum ((I.parentVars c).map (fun p => psum I σ p)) ≤ ((I.parentVars c).length : Nat) :=
+      isum_map_le_length _ _ (fun p hp => C11_Ilp.psum_le_one_all h hwr (mem_parentVars.mp hp).1)
+    omega
+
+/-- Join `J` with parents `A` (released, offered) and `B` (COMPLETED, hence without variables);
+`J` is offered ahead by the lookahead.  One worker with 2 CPUs. -/
+def joinInst : Inst :=
+  { now := 0
+    workers := [⟨"W0", "P0", [("CPU", 2)]⟩]
+    tasks := [⟨"A@G0", "A", 0, "G0", .released, 0, 7, [⟨1, 1, [("CPU", 1)]⟩], 0, 0⟩,
+              ⟨"J@G0", "J", 0, "G0", .virtual, -1, 10, [⟨1, 2, [("CPU", 1)]⟩], 0, 0⟩]
+    nOffered := 2
+    nodes := [⟨"A@G0", "A", 0, "G0"⟩, ⟨"B@G0", "B", 0, "G0"⟩, ⟨"J@G0", "J", 0, "G0"⟩]
+    edges := [("A@G0", "J@G0"), ("B@G0", "J@G0")]
+    enforceDeadlines := true, retract := false, releaseTaskgraphs := false, goalSlack := false
+    allowed0 := [] }
+
+/-- `A` over `[1, 2]`, then `J` over `[3, 5]`. -/
+def joinPlan : Plan := [some ⟨0, 0, 1⟩, some ⟨0, 0, 3⟩]
+
+theorem joinInst_wf : joinInst.wf = true := by decide
+
+theorem joinPlan_valid : ValidPlan joinInst joinPlan :=
+  IlpSpec.validPlanB_sound (by decide) (by decide)
+
+theorem joinPlan_goodput : goodput joinInst joinPlan = 1 := by decide
+
+/-- Every feasible point scores 0 on `joinInst`: the reward task `J` can never be placed. -/
+theorem join_objective_zero {σ : Var → Int} (h : sat σ (gen joinInst)) : objective σ (gen joinInst) = 0 := by
+  have hwr : joinInst.wfRunning = true := by decide
+  rw [objective_eq_goodput h hwr (by decide)]
+  have hJ := never_placed_of_missing_parent (I := joinInst) h hwr (c := 1) (by decide) (by decide)
+    (by decide) (by decide)
+  have hun : ((planOf joinInst σ).get 1).isSome = false := by
+    cases hs : ((planOf joinInst σ).get 1).isSome with
+    | false => rfl
+    | true => have := (placed_iff h hwr (t := 1) (by decide)).mp hs; omega
+  have hlen : joinInst.graphs.length = 1 := by decide
+  have hrt : joinInst.rewardTasks (joinInst.graphs.getD 0 "") = [1] := by decide
+  have hlt : goodput joinInst (planOf joinInst σ) < joinInst.graphs.length := by
+    unfold goodput
+    have := (List.length_filter_lt_length_iff_exists (l := List.range joinInst.graphs.length)
+      (p := fun gi => (joinInst.rewardTasks (joinInst.graphs.getD gi "")).all
+        (fun t => ((planOf joinInst σ).get t).isSome))).mpr
+      ⟨0, List.mem_range.mpr (by omega), by rw [hrt]; simp [hun]⟩
+    simpa using this
+  have : goodput joinInst (planOf joinInst σ) = 0 := by omega
+  simp [this]
+
+/-- **Counterexample to completeness** (finding C14-ILP-3, reproduced on the real code by the
+suite): the plan `A`, then `J` finishes the graph; no feasible point of the model scores 1. -/
+theorem join_counterexample : ¬ ilp_complete_full joinInst := by
+  intro hc
+  obtain ⟨σ, hs, ho⟩ := hc joinPlan joinPlan_valid
+  rw [join_objective_zero hs, joinPlan_goodput] at ho
+  omega
+
 /-! ### Completeness for the as-coded reading -/
 
 open FullPlan in
